@@ -145,7 +145,7 @@ Lemma ginv_stable valid s s' gn gh :
   ginv valid s' gn gh.
 Proof.
   intros H Ha Hn. destruct gn as [a|a pm rest|]; cbn [ginv] in *; [exact H| |exact H].
-  destruct H as [H1 [H2 [H3 HJ]]]. repeat split; try assumption.
+  destruct H as [H1 [H2 [H3 HJ]]]. split; [exact H1|]. split; [exact H2|]. split; [exact H3|].
   eapply J_stable; [exact HJ| |apply incl_refl|exact Hn]. intros p Hp. left. now apply Ha.
 Qed.
 
@@ -179,28 +179,290 @@ Proof.
   { intros x g' Hne. unfold set_gen. apply Nat.eqb_neq in Hne. now rewrite Hne. }
   assert (Hself : forall x, set_gen s g x g = x).
   { intros x. unfold set_gen. now rewrite Nat.eqb_refl. }
+  assert (Hneq : forall o0 : out, (exists p ob i, o0 = OYield p ob i) \/ o0 = OStop \/ (exists e, o0 = OExc e) \/ o0 = OOom ->
+            o0 <> ONone /\ o0 <> OBad /\ (forall l, o0 <> OPids l) /\ (forall b, o0 <> OBool b)).
+  { intros o0 [[p [ob [i H]]]|[H|[[e H]|H]]]; subst o0; repeat split; intros; discriminate. }
   destruct (gen_loop (tbl s) valid a _ rest) as [x' rest' p o i|x'|x' e|x']; cbn [loop_post] in HL;
     cbn [fst snd mk tbl nobj ngen gens pmap gnext].
-  - destruct HL as [HJ' Hn]. repeat split; try assumption; try discriminate.
-    + intros g' Hne. now apply Hother.
-    + rewrite Hself. cbn [ginv]. repeat split; try assumption. exact HJ'.
-    + intros [H|[e H]]; discriminate.
-  - destruct HL as [HJ' Hn]. repeat split; try assumption; try discriminate.
-    + intros g' Hne. now apply Hother.
-    + rewrite Hself. cbn [ginv gh_finish gh_done gh_exhausted gh_list gh_yields gh_vanished]. split; [reflexivity|].
+  - destruct HL as [HJ' Hn].
+    split; [reflexivity|]. split; [exact Hn|]. split; [reflexivity|].
+    split; [intros g' Hne; now apply Hother|].
+    split.
+    { rewrite Hself. cbn [ginv]. split; [exact Hst|]. split; [exact Hdn|]. split; [exact Ha|]. exact HJ'. }
+    split; [intros [H|[e H]]; discriminate|].
+    split; [intros e H; discriminate|].
+    split; [apply Hneq; left; now exists p, o, i|].
+    intros; reflexivity.
+  - destruct HL as [HJ' Hn].
+    split; [reflexivity|]. split; [exact Hn|]. split; [reflexivity|].
+    split; [intros g' Hne; now apply Hother|].
+    split.
+    { rewrite Hself. cbn [ginv gh_finish gh_done gh_exhausted gh_list gh_yields gh_vanished]. split; [reflexivity|].
       split; [split; [apply (j_ysorted _ _ _ _ _ _ _ _ HJ')|apply (j_yok _ _ _ _ _ _ _ _ HJ')]|].
-      intros _ p0 Hp. destruct (j_comp _ _ _ _ _ _ _ _ HJ' p0 Hp) as [Hy|[[po []]|[Hv|Hs]]]; auto.
-    + intros _. exact (J_Jfin _ _ _ _ _ _ _ _ HJ').
-  - destruct HL as [HF [Hn [He [l [Hl Hbad]]]]]. repeat split; try assumption; try discriminate.
-    + intros g' Hne. now apply Hother.
-    + rewrite Hself. cbn [ginv gh_finish gh_done gh_exhausted]. split; [reflexivity|].
-      split; [split; [apply (f_ysorted _ _ _ _ HF)|apply (f_yok _ _ _ _ HF)]|discriminate].
-    + intros e0 H0. inversion H0; subst e0. exact He.
-    + inversion H. subst e0. exists l. now split.
-  - repeat split; try assumption; try discriminate.
-    + intros g' Hne. now apply Hother.
-    + rewrite Hself. cbn [ginv gh_finish gh_done gh_exhausted]. split; [reflexivity|].
-      split; [split; [apply (j_ysorted _ _ _ _ _ _ _ _ HJ)|apply (j_yok _ _ _ _ _ _ _ _ HJ)]|discriminate].
-    + intros [H|[e H]]; discriminate.
-    + intros e H; discriminate.
+      intros _ p0 Hp. destruct (j_comp _ _ _ _ _ _ _ _ HJ' p0 Hp) as [Hy|[[po []]|[Hv|Hs]]];
+        [now left|right; now left|right; now right]. }
+    split; [intros _; exact (J_Jfin _ _ _ _ _ _ _ _ HJ')|].
+    split; [intros e H; discriminate|].
+    split; [apply Hneq; right; now left|].
+    intros; discriminate.
+  - destruct HL as [HF [Hn [He [l [Hl Hbad]]]]].
+    split; [reflexivity|]. split; [exact Hn|]. split; [reflexivity|].
+    split; [intros g' Hne; now apply Hother|].
+    split.
+    { rewrite Hself. cbn [ginv gh_finish gh_done gh_exhausted]. split; [reflexivity|].
+      split; [split; [apply (f_ysorted _ _ _ _ HF)|apply (f_yok _ _ _ _ HF)]|discriminate]. }
+    split; [intros _; exact HF|].
+    split.
+    { intros e0 H0. injection H0 as H0. subst e0. split; [exact He|]. exists l. cbn [frame_of f_attrs] in Hl. rewrite Ha in Hl. now split. }
+    split; [apply Hneq; right; right; left; now exists e|].
+    intros; discriminate.
+  - split; [reflexivity|]. split; [exact HL|]. split; [reflexivity|].
+    split; [intros g' Hne; now apply Hother|].
+    split.
+    { rewrite Hself. cbn [ginv gh_finish gh_done gh_exhausted]. split; [reflexivity|].
+      split; [split; [apply (j_ysorted _ _ _ _ _ _ _ _ HJ)|apply (j_yok _ _ _ _ _ _ _ _ HJ)]|discriminate]. }
+    split; [intros [H|[e H]]; discriminate|].
+    split; [intros e H; discriminate|].
+    split; [apply Hneq; right; right; now right|].
+    intros; discriminate.
 Qed.
+
+(* ---------------------------------------------------------------- one step keeps the invariant *)
+Lemma alive_cons k t p : alive t p = true -> alive (k :: t) p = true.
+Proof. rewrite !alive_listed. cbn [listing map]. now right. Qed.
+
+Lemma alive_same_listing t t' p : listing t' = listing t -> alive t' p = alive t p.
+Proof.
+  intros H. destruct (alive t p) eqn:E.
+  - apply alive_listed. rewrite H. now apply alive_listed.
+  - apply alive_false. rewrite H. now apply alive_false.
+Qed.
+
+Lemma alive_reap t p q :
+  alive t q = true -> q <> p -> alive (filter (fun k => negb (k_pid k =? p)) t) q = true.
+Proof.
+  rewrite !alive_listed. unfold listing. rewrite !in_map_iff. intros [k [Hk Hin]] Hne.
+  exists k. split; [exact Hk|]. apply filter_In. split; [exact Hin|].
+  apply negb_true_iff. apply Z.eqb_neq. congruence.
+Qed.
+
+Lemma Inv_frame valid s G s' :
+  Inv valid (s, G) -> gens s' = gens s ->
+  (forall p, alive (tbl s) p = true -> alive (tbl s') p = true) -> (nobj s <= nobj s')%nat ->
+  Inv valid (s', G).
+Proof.
+  intros H Hg Ha Hn g. cbn [fst snd]. rewrite Hg. eapply ginv_stable; [apply (H g)|exact Ha|exact Hn].
+Qed.
+
+Lemma gset_same G g x : gset G g x g = x.
+Proof. unfold gset. now rewrite Nat.eqb_refl. Qed.
+Lemma gset_other G g x g' : g' <> g -> gset G g x g' = G g'.
+Proof. intros H. unfold gset. apply Nat.eqb_neq in H. now rewrite H. Qed.
+Lemma set_gen_same s g x : set_gen s g x g = x.
+Proof. unfold set_gen. now rewrite Nat.eqb_refl. Qed.
+Lemma set_gen_other s g x g' : g' <> g -> set_gen s g x g' = gens s g'.
+Proof. intros H. unfold set_gen. apply Nat.eqb_neq in H. now rewrite H. Qed.
+
+Lemma gen_start_exc t pm ru e : gen_start t pm ru = Exc e -> e = IndexError /\ t = [].
+Proof.
+  unfold gen_start, pids_sorted. destruct (zsort (listing t)) eqn:E; cbn [obind]; [|discriminate].
+  intros H. injection H as H. subst e. split; [reflexivity|].
+  apply (proj1 (zsort_nil _)) in E. unfold listing in E. now apply map_eq_nil in E.
+Qed.
+
+Lemma gen_start_oom t pm ru : gen_start t pm ru <> OutOfModel.
+Proof. unfold gen_start, pids_sorted. destruct (zsort (listing t)); cbn [obind]; discriminate. Qed.
+
+(* IterNext on a generator that exists, as a function of its frame *)
+Lemma next_inv valid s G g :
+  Inv valid (s, G) -> (ngen s <=? g)%nat = false ->
+  let r := step valid s (IterNext g) in
+  let G' := gupd s (IterNext g) (snd r) G in
+  Inv valid (fst r, G') /\
+  (forall x, snd r = OExc x ->
+     (x = ValueError /\ exists l, gh_attrs (G g) = Some l /\ attrs_valid valid l = false)
+     \/ (x = IndexError /\ tbl s = [])) /\
+  (gh_done (G g) = false -> gh_done (G' g) = true -> snd r <> OOom -> tbl s <> [] ->
+     Jfin valid (frame_of (G' g)) (pmap (fst r)) (gh_yields (G' g))) /\
+  (snd r <> ONone /\ snd r <> OBad /\ (forall l, snd r <> OPids l) /\ (forall b, snd r <> OBool b)) /\
+  (forall p ob i, snd r = OYield p ob i -> pmap (fst r) = pmap s).
+Proof.
+  intros HI Hg r G'. subst r G'. cbn [step gupd]. rewrite Hg.
+  pose proof (HI g) as Hgi. cbn [fst snd] in Hgi.
+  destruct (gens s g) as [a|a pm rest|] eqn:Eg; cbn [ginv] in Hgi.
+  - (* body entered now *)
+    destruct Hgi as [Hst [Hdn [Hat Hy]]]. rewrite Hdn, Hst.
+    destruct (gen_start (tbl s) (pmap s) (reused s)) as [[[pm ls] low]|e|] eqn:Es.
+    + set (s1 := mk s (tbl s) (pmap s) [] (Some low) (heap s) (nobj s) (gens s) (ngen s)).
+      pose proof (start_inv valid (tbl s) (pmap s) (reused s) (gh_attrs (G g)) (nobj s) pm ls low Es) as HJ.
+      pose proof (run_loop_inv valid s1 g a pm ls (gh_enter s (G g)) Hat eq_refl eq_refl HJ) as HR.
+      cbn zeta in HR. destruct HR as [Ht [Hn [Hng [Hoth [Hinv [Hfin [Hexc [Hneq Hyp]]]]]]]].
+      split.
+      { intros g'. cbn [fst snd]. destruct (Nat.eq_dec g' g) as [->|Hne].
+        - rewrite gset_same. exact Hinv.
+        - rewrite gset_other by exact Hne. rewrite (Hoth g' Hne).
+          change (gens s1 g') with (gens s g').
+          eapply ginv_stable; [apply (HI g')| |exact Hn].
+          intros p Hp. rewrite Ht. exact Hp. }
+      split.
+      { intros x Hx. left. destruct (Hexc x Hx) as [He [l [Hl Hb]]]. split; [exact He|]. exists l.
+        rewrite Hat. now split. }
+      split.
+      { intros _ Hd Hoom _. rewrite gset_same in *.
+        destruct (snd (run_loop valid s1 g a pm ls)) eqn:Eo; cbn [gnext gh_push gh_finish gh_done gh_enter] in Hd;
+          try discriminate.
+        - apply Hfin. now left.
+        - apply Hfin. right. now exists e.
+        - congruence. }
+      split; [exact Hneq|]. exact Hyp.
+    + destruct (gen_start_exc _ _ _ _ Es) as [He Ht]. subst e. cbn [fst snd].
+      split.
+      { intros g'. cbn [fst snd with_gen mk gens tbl nobj]. destruct (Nat.eq_dec g' g) as [->|Hne].
+        - rewrite gset_same, set_gen_same. cbn [ginv gh_finish gh_done gh_exhausted gh_enter]. split; [reflexivity|].
+          split; [split; constructor|discriminate].
+        - rewrite gset_other, set_gen_other by exact Hne. apply (HI g'). }
+      split; [intros x Hx; injection Hx as Hx; subst x; right; now split|].
+      split; [intros _ _ _ Hne; contradiction|].
+      split; [repeat split; intros; discriminate|]. intros; discriminate.
+    + exfalso. exact (gen_start_oom _ _ _ Es).
+  - (* resumed *)
+    destruct Hgi as [Hst [Hdn [Hat HJ]]]. rewrite Hdn, Hst.
+    pose proof (run_loop_inv valid s g a pm rest (G g) Hat Hst Hdn HJ) as HR.
+    cbn zeta in HR. destruct HR as [Ht [Hn [Hng [Hoth [Hinv [Hfin [Hexc [Hneq Hyp]]]]]]]].
+    split.
+    { intros g'. cbn [fst snd]. destruct (Nat.eq_dec g' g) as [->|Hne].
+      - rewrite gset_same. exact Hinv.
+      - rewrite gset_other by exact Hne. rewrite (Hoth g' Hne).
+        eapply ginv_stable; [apply (HI g')| |exact Hn].
+        intros p Hp. rewrite Ht. exact Hp. }
+    split.
+    { intros x Hx. left. destruct (Hexc x Hx) as [He [l [Hl Hb]]]. split; [exact He|]. exists l.
+      rewrite Hat. now split. }
+    split.
+    { intros _ Hd Hoom _. rewrite gset_same in *.
+      destruct (snd (run_loop valid s g a pm rest)) eqn:Eo; cbn [gnext gh_push gh_finish gh_done] in Hd;
+        try congruence.
+      - apply Hfin. now left.
+      - apply Hfin. right. now exists e. }
+    split; [exact Hneq|]. exact Hyp.
+  - (* finished generator *)
+    destruct Hgi as [Hdn _]. rewrite Hdn. cbn [fst snd].
+    split; [exact HI|]. split; [intros x Hx; discriminate|].
+    split; [intros Hd; congruence|]. split; [repeat split; intros; discriminate|]. intros; discriminate.
+Qed.
+
+Lemma gens_run_loop_none : True. Proof. exact I. Qed.
+
+Lemma Inv_step valid sg e : Inv valid sg -> Inv valid (fst (istep valid sg e)).
+Proof.
+  destruct sg as [s G]. intros HI. unfold istep. cbn [fst snd].
+  destruct (step valid s e) as [s' o] eqn:Es. cbn [fst].
+  assert (Hs' : s' = fst (step valid s e)) by now rewrite Es.
+  assert (Ho : o = snd (step valid s e)) by now rewrite Es.
+  destruct e.
+  - (* Spawn *)
+    cbn [gupd]. cbn [step] in Hs'.
+    destruct ((0 <=? pid) && (pid <=? PIDMAX) && id_free (tbl s) pid); cbn [fst] in Hs'; subst s'; [|exact HI].
+    apply (Inv_frame _ s); [exact HI|reflexivity| |cbn; lia].
+    intros p Hp. cbn [with_tbl mk tbl]. now apply alive_cons.
+  - (* Exit *)
+    cbn [gupd]. cbn [step fst] in Hs'. subst s'.
+    apply (Inv_frame _ s); [exact HI|reflexivity| |cbn; lia].
+    intros p Hp. cbn [with_tbl mk tbl]. erewrite alive_same_listing; [exact Hp|].
+    apply listing_map_same. intros k. destruct (k_pid k =? pid); reflexivity.
+  - (* Reap *)
+    cbn [gupd]. cbn [step fst] in Hs'. subst s'.
+    destruct (alive (tbl s) pid) eqn:Ea.
+    + intros g. cbn [fst snd with_tbl mk gens tbl nobj]. pose proof (HI g) as Hg. cbn [fst snd] in Hg.
+      unfold gh_vanish.
+      destruct (gens s g) as [a|a pm rest|]; cbn [ginv] in *.
+      * destruct Hg as [H1 [H2 [H3 H4]]]. rewrite H1. cbn [andb]. now repeat split.
+      * destruct Hg as [H1 [H2 [H3 HJ]]]. rewrite H1, H2. cbn [andb negb gh_started gh_done gh_attrs gh_yields gh_vanished].
+        split; [reflexivity|]. split; [reflexivity|]. split; [exact H3|].
+        eapply J_stable; [exact HJ| | |apply Nat.le_refl].
+        -- intros p Hp. destruct (Z.eq_dec p pid) as [->|Hne]; [right; now left|left; now apply alive_reap].
+        -- intros x Hx. now right.
+      * destruct Hg as [H1 H2]. rewrite H1. rewrite andb_false_r. now split.
+    + apply (Inv_frame _ s); [exact HI|reflexivity| |cbn; lia].
+      intros p Hp. cbn [with_tbl mk tbl]. apply alive_reap; [exact Hp|]. intros ->. congruence.
+  - (* Thread *)
+    cbn [gupd]. cbn [step] in Hs'.
+    destruct ((1 <=? tid) && (tid <=? PIDMAX) && id_free (tbl s) tid); cbn [fst] in Hs'; subst s'; [|exact HI].
+    apply (Inv_frame _ s); [exact HI|reflexivity| |cbn; lia].
+    intros p Hp. cbn [with_tbl mk tbl]. erewrite alive_same_listing; [exact Hp|].
+    apply listing_map_same. intros k. destruct ((k_pid k =? pid) && negb (k_zombie k)); reflexivity.
+  - (* ThreadExit *)
+    cbn [gupd]. cbn [step fst] in Hs'. subst s'.
+    apply (Inv_frame _ s); [exact HI|reflexivity| |cbn; lia].
+    intros p Hp. cbn [with_tbl mk tbl]. erewrite alive_same_listing; [exact Hp|].
+    apply listing_map_same. reflexivity.
+  - (* Pids *)
+    cbn [gupd]. cbn [step] in Hs'.
+    destruct (pids_sorted (listing (tbl s))) as [[l low]| |]; cbn [fst] in Hs'; subst s'; exact HI.
+  - (* PidExists *)
+    cbn [gupd]. cbn [step] in Hs'.
+    destruct (n <? 0); cbn [fst] in Hs'; [subst s'; exact HI|].
+    destruct (n =? 0); cbn [fst] in Hs'; [|subst s'; exact HI].
+    destruct (pids_sorted (listing (tbl s))) as [[l low]| |]; cbn [fst] in Hs'; subst s'; exact HI.
+  - (* IterNew *)
+    cbn [gupd]. cbn [step fst] in Hs'. subst s'.
+    intros g. cbn [fst snd mk gens tbl nobj]. destruct (Nat.eq_dec g (ngen s)) as [->|Hne].
+    + rewrite gset_same, set_gen_same. cbn [ginv gh_fresh gh_started gh_done gh_attrs gh_yields]. now repeat split.
+    + rewrite gset_other, set_gen_other by exact Hne. apply (HI g).
+  - (* IterNext *)
+    destruct (Nat.leb (ngen s) g) eqn:Hg.
+    + cbn [gupd]. rewrite Hg. cbn [step] in Hs'. rewrite Hg in Hs'. cbn [fst] in Hs'. subst s'. exact HI.
+    + subst s' o. exact (proj1 (next_inv valid s G g HI Hg)).
+  - (* IterClose *)
+    cbn [gupd]. cbn [step] in Hs'.
+    destruct (Nat.leb (ngen s) g) eqn:Hg; cbn [fst] in Hs'; [subst s'; exact HI|].
+    pose proof (HI g) as Hgi. cbn [fst snd] in Hgi.
+    destruct (gens s g) as [a|a pm rest|] eqn:Eg; cbn [ginv] in Hgi; cbn [fst] in Hs'; subst s'.
+    + destruct Hgi as [H1 [H2 [H3 H4]]]. rewrite H2.
+      intros g'. cbn [fst snd with_gen mk gens tbl nobj]. destruct (Nat.eq_dec g' g) as [->|Hne].
+      * rewrite gset_same, set_gen_same. cbn [ginv gh_finish gh_done gh_exhausted]. split; [reflexivity|].
+        split; [|discriminate]. unfold yields_fin. cbn [gh_finish gh_yields]. rewrite H4. split; constructor.
+      * rewrite gset_other, set_gen_other by exact Hne. apply (HI g').
+    + destruct Hgi as [H1 [H2 [H3 HJ]]]. rewrite H2.
+      intros g'. cbn [fst snd mk gens tbl nobj]. destruct (Nat.eq_dec g' g) as [->|Hne].
+      * rewrite gset_same, set_gen_same. cbn [ginv gh_finish gh_done gh_exhausted]. split; [reflexivity|].
+        split; [|discriminate]. split; [apply (j_ysorted _ _ _ _ _ _ _ _ HJ)|apply (j_yok _ _ _ _ _ _ _ _ HJ)].
+      * rewrite gset_other, set_gen_other by exact Hne.
+        eapply ginv_stable; [apply (HI g')|intros p Hp; exact Hp|apply Nat.le_refl].
+    + destruct Hgi as [H1 H2]. rewrite H1.
+      intros g'. cbn [fst snd with_gen mk gens tbl nobj]. destruct (Nat.eq_dec g' g) as [->|Hne].
+      * rewrite set_gen_same. cbn [ginv]. now split.
+      * rewrite set_gen_other by exact Hne. apply (HI g').
+  - (* CacheClear *)
+    cbn [gupd]. cbn [step fst] in Hs'. subst s'.
+    apply (Inv_frame _ s); [exact HI|reflexivity|intros p Hp; exact Hp|cbn; lia].
+  - (* IsRunning *)
+    cbn [gupd]. cbn [step] in Hs'.
+    destruct (Nat.leb (nobj s) o0); cbn [fst] in Hs'; [subst s'; exact HI|].
+    destruct (is_running_obj _ _ _ _) as [[r ob'] ru']. cbn [fst] in Hs'. subst s'.
+    apply (Inv_frame _ s); [exact HI|reflexivity|intros p Hp; exact Hp|cbn; lia].
+Qed.
+
+Lemma Inv_init valid : Inv valid (init, fun _ => gh_none).
+Proof.
+  intros g. cbn. split; [reflexivity|]. split; [split; constructor|discriminate].
+Qed.
+
+Lemma Inv_fold valid h : forall sg, Inv valid sg -> Inv valid (fold_left (fun sg e => fst (istep valid sg e)) h sg).
+Proof.
+  induction h as [|e h IH]; intros sg H; [exact H|]. cbn [fold_left]. apply IH. now apply Inv_step.
+Qed.
+
+Theorem Inv_irun valid h : Inv valid (irun valid h).
+Proof. apply Inv_fold. apply Inv_init. Qed.
+
+(* the machine inside the instrumented machine *)
+Lemma irun_fst_fold valid h : forall sg,
+  fst (fold_left (fun sg e => fst (istep valid sg e)) h sg) = fold_left (fun s e => fst (step valid s e)) h (fst sg).
+Proof.
+  induction h as [|e h IH]; intros sg; [reflexivity|]. cbn [fold_left]. rewrite IH. f_equal.
+  unfold istep. destruct (step valid (fst sg) e). reflexivity.
+Qed.
+
+Lemma irun_final valid h : fst (irun valid h) = final valid h.
+Proof. unfold irun, final. now rewrite irun_fst_fold. Qed.
